@@ -613,6 +613,10 @@ class RawVoltageBackend(object):
         load_template : bool, optional
             Control whether the internal header template's keys are used.
         """
+        # Work on a copy, so that neither the caller's dictionary nor the shared 
+        # default argument carries PKTIDX (and other entries) over to later recordings
+        header_dict = dict(header_dict)
+        
         if length_mode == 'obs_length':
             if obs_length is None:
                 if self.input_num_blocks is not None:
